@@ -21,6 +21,10 @@ type Op struct {
 	Val    uint64 `json:"val,omitempty"`
 	Loop   uint64 `json:"loop,omitempty"`
 	Note   string `json:"note,omitempty"` // free text for the reader (method name etc.)
+	// NoRecord: do not store the success flag (the frame then leaves no journal entry of its own after the call).
+	NoRecord bool `json:"no_record,omitempty"`
+	// ValueAll: attach the executing context's whole balance (SELFBALANCE) instead of Value.
+	ValueAll bool `json:"value_all,omitempty"`
 }
 
 type Frame struct {
@@ -95,7 +99,11 @@ func (p Program) Compile() [][]byte {
 				// stack (top first): gas, addr, [value], inOff, inSize, outOff, outSize
 				a.Push(0).Push(0).Push(uint64(len(data))).Push(0)
 				if callOp == vm.CALL || callOp == vm.CALLCODE {
-					a.PushBig(bigOf(op.Value))
+					if op.ValueAll {
+						a.Op(vm.SELFBALANCE)
+					} else {
+						a.PushBig(bigOf(op.Value))
+					}
 				}
 				a.PushAddr(target)
 				if op.Kind == "send" {
@@ -106,9 +114,13 @@ func (p Program) Compile() [][]byte {
 					a.Op(vm.GAS)
 				}
 				a.Op(callOp)
-				// record flag+1
-				a.Push(1).Op(vm.ADD)
-				a.PushBytes(ResultSlot(i, j).Bytes()).Op(vm.SSTORE)
+				if op.NoRecord {
+					a.Op(vm.POP)
+				} else {
+					// record flag+1
+					a.Push(1).Op(vm.ADD)
+					a.PushBytes(ResultSlot(i, j).Bytes()).Op(vm.SSTORE)
+				}
 			case "sstore":
 				a.Push(op.Val).Push(op.Key).Op(vm.SSTORE)
 			case "log":
